@@ -7,34 +7,21 @@ BASELINE_OFF = ("cd /repo && export PATH=/opt/veriftools/go1.26.8/bin:$PATH GOFL
 
 TECH = "contract-based deductive verification: WP-style VCs over go/ssa of the real code, discharged by z3/cvc5"
 
-CLAIMED = {
-    "C18": dict(cat="proof", ref="DESIGN.md §4.18",
-        text=("Unbounded per-call proof that MemoryStorage and the unstable log behave like an abstract list of entries with a compacted prefix: representation "
-              "invariants are preserved by every operation and every query/update satisfies a functional postcondition over the abstract view (exact error ranges, "
-              "term-at, size-limited non-empty windows, append/overwrite-from-index, compaction, ABA-safe persistence acknowledgements, no overwritten cell is exposed). "
-              "Composes over arbitrary operation sequences by induction on the sequence. Found and fixed defect F-1 (Term panicking for i-offset >= 2^63)."),
-        note=("Trusted: govc semantics, SMT solvers; proto.Clone modelled as fresh deep copy, proto.Size as uninterpreted function; sync.Mutex ignored (single-threaded); "
-              "A-arith (indexes + lengths < 2^63, slice windows <= 2^31). The combined raftLog view (log.go) is covered where its functions are under contract; "
-              "the Storage interface seen from raftLog is an assumed contract proved for MemoryStorage only.")),
-    "C12": dict(cat="proof", ref="DESIGN.md §4.12",
-        text=("Unbounded proof that the real quorum functions compute exactly what the property states, with the specification written in counting form "
-              "over the voter set: VoteResult == Won iff #yes >= n/2+1, Lost iff #yes + #missing < n/2+1, Pending otherwise (empty set wins); "
-              "CommittedIndex r satisfies #{ack >= r} >= n/2+1 (for r > 0) and #{ack > r} < n/2+1 (missing = 0); the joint functions combine the halves "
-              "(min / both-won, an empty half imposes no constraint). Map iteration is verified for an arbitrary order."),
-        note=("Trusted: govc semantics, SMT solvers; slices.Sort contract (sorted permutation); engine axioms A-count (count along any enumeration = count of the set) "
-              "and L-count (point update, all-zero array, order statistic of a sorted window, permutation invariance of array counts) - elementary counting facts not proved in SMT; "
-              "the AckedIndexer interface is abstracted by an uninterpreted acknowledgement function.")),
-    "C16": dict(cat="proof", ref="DESIGN.md §4.16",
-        text=("Unbounded proof, per function, of the size/flow-control clauses: limitSize returns a non-empty maximal prefix within the byte budget "
-              "(single oversized entry excepted); Inflights ring-buffer operations keep count <= size, Add requires not-Full and enqueues exactly one "
-              "message (so the byte limit is exceeded by at most the message that crosses it), FreeLE frees exactly the maximal prefix <= to. "
-              "Every obligation is a universally quantified VC over the real SSA; a regression in one of these functions fails a named obligation."),
-        note=("Trusted: govc's SSA->SMT semantics, go/ssa, the SMT solvers; proto.Size as an uninterpreted non-negative function (<= 2^31); "
-              "A-arith (slice windows <= 2^31 elements); recursive sum definition sumsize with one derived range fact.")),
-}
+DESIGN_REF = {"C%02d" % i: "DESIGN.md §4.%d" % i for i in range(1, 21)}
+COMMON_NOTE = ("Trusted base: govc's SSA->SMT semantics (go/ssa of x/tools, Burstall heap, exact wrap-around integers), the SMT solvers (z3 5.1, z3 4.8, cvc5 1.0); "
+               "engine axioms A-count / L-count (elementary counting facts) and stability/footprint rules for opaque specs (stability lemmas are proved per spec); "
+               "library contracts (proto.Size uninterpreted, proto.Clone fresh deep copy, proto.Unmarshal/Marshal effects, slices.Sort sorted permutation, encoding/binary, fmt/Logger without effect); "
+               "A-arith (slice windows <= 2^31, indexes < 2^62 where stated in #a-arith preconditions); environment assumptions appear as labelled preconditions "
+               "(E-msg-wf, E-ready-contract, E-app-conf, E-leader-complete, E-snapshot-conf-valid) and are listed per function in the evidence file together with every "
+               "trusted contract (ProgressTracker.Visit iterates in sorted order, raft.switchToConfig, raft.appliedSnap, confchange.Restore, raft.hasUnappliedConfChanges, "
+               "assertConfStatesEquivalent, lockedRand.Intn, DescribeConfChange).")
+props = json.loads(subprocess.run(["/verif/bin/govc", "props"], capture_output=True, text=True, check=True).stdout)
+CLAIMED = {pid: dict(cat=v["Level"], ref=DESIGN_REF[pid], text=v["Explanation"], note=COMMON_NOTE) for pid, v in props.items()}
 
-NOT_YET = "no contract-based check has been built for this property yet (work in progress; see DESIGN.md §11 build order)"
+NOT_YET = "no contract-based check has been built for this property yet (see DESIGN.md §12)"
 NA = {
+    "C13": "the confchange package (Changer.Simple/EnterJoint/LeaveJoint, checkInvariants, Restore round trip) is not under contract yet: only the call-site obligations in raft.restore "
+           "(fresh empty tracker handed to Restore, limits kept) and tracker.MakeProgressTracker are proved, which is too little to claim the configuration algebra (DESIGN.md §12)",
     "C15": "liveness of a multi-node system under fairness: function contracts and (two-state) invariants constrain single calls on one node and cannot "
            "state that something eventually happens across nodes; per-call termination variants are discharged but do not imply convergence (DESIGN.md §5)",
 }
